@@ -541,11 +541,32 @@ fn hostile_time(class: &str) -> Option<time::OffsetDateTime> {
 	}
 }
 
-fn hostile_cert_params(class: &str) -> CertificateParams {
+/// `bg`: the other, harmless fields of the parameters ("background"); the hostile class is applied on top of it
+fn hostile_cert_params(class: &str, bg: &str) -> CertificateParams {
 	let mut p = CertificateParams::default();
 	p.serial_number = Some(SerialNumber::from_slice(&[1, 2]));
 	if !cfg!(feature = "crypto") {
 		p.key_identifier_method = KeyIdMethod::PreSpecified(vec![1]);
+	}
+	match bg {
+		"nc-some-empty" => p.name_constraints = Some(NameConstraints { permitted_subtrees: vec![], excluded_subtrees: vec![] }),
+		"ca" => p.is_ca = IsCa::Ca(BasicConstraints::Constrained(1)),
+		"explicit-no-ca" => p.is_ca = IsCa::ExplicitNoCa,
+		"aki-crldp-nc" => {
+			p.use_authority_key_identifier_extension = true;
+			p.crl_distribution_points = vec![CrlDistributionPoint { uris: vec!["http://crl.example/a".into()] }];
+			p.is_ca = IsCa::Ca(BasicConstraints::Unconstrained);
+			p.name_constraints = Some(NameConstraints { permitted_subtrees: vec![GeneralSubtree::DnsName("example".into())], excluded_subtrees: vec![] });
+		},
+		"rich" => {
+			p.subject_alt_names = vec![SanType::DnsName("a.example".try_into().unwrap()), SanType::IpAddress(std::net::IpAddr::from([192, 0, 2, 1])),
+				SanType::Rfc822Name("x@example".try_into().unwrap()), SanType::URI("https://example/".try_into().unwrap()), SanType::OtherName((vec![1, 2, 3, 4], "v".into()))];
+			p.key_usages = vec![KeyUsagePurpose::DigitalSignature, KeyUsagePurpose::KeyCertSign];
+			p.extended_key_usages = vec![ExtendedKeyUsagePurpose::ServerAuth, ExtendedKeyUsagePurpose::Other(vec![1, 3, 6, 1, 4, 1, 55555, 9])];
+			p.custom_extensions = vec![CustomExtension::from_oid_content(&[1, 3, 6, 1, 4, 1, 55555, 1], vec![5, 0])];
+			p.distinguished_name.push(DnType::OrganizationName, "background");
+		},
+		_ => {},
 	}
 	let nc = |s: GeneralSubtree| Some(NameConstraints { permitted_subtrees: vec![s], excluded_subtrees: vec![] });
 	match class {
@@ -602,12 +623,13 @@ pub fn run_matrix(cases_path: &str, out_path: &str) {
 	let issuer = to_params(&ip).unwrap().self_signed(&key.kp).unwrap();
 	for (i, c) in read_ndjson(cases_path).iter().enumerate() {
 		let (f, class) = (sval(c, "fn"), sval(c, "class"));
+		let bg = c.get("bg").and_then(|v| v.as_str()).unwrap_or("plain").to_string();
 		let case = format!("matrix/{}", i);
 		let res: Result<bool, String> = guarded_any(|| match f.as_str() {
-			"self_signed" => hostile_cert_params(&class).self_signed(&key.kp).is_ok(),
-			"signed_by" => hostile_cert_params(&class).signed_by(&subj.kp, &issuer, &key.kp).is_ok(),
+			"self_signed" => hostile_cert_params(&class, &bg).self_signed(&key.kp).is_ok(),
+			"signed_by" => hostile_cert_params(&class, &bg).signed_by(&subj.kp, &issuer, &key.kp).is_ok(),
 			"serialize_request" => {
-				let mut p = hostile_cert_params(&class);
+				let mut p = hostile_cert_params(&class, if bg == "explicit-no-ca" || bg == "aki-crldp-nc" || bg == "nc-some-empty" { "plain" } else { &bg });
 				p.serial_number = None;
 				let attrs = match class.as_str() {
 					"attr-oid-empty" => vec![Attribute { oid: &[], values: vec![0x31, 0x00] }],
@@ -670,7 +692,7 @@ pub fn run_matrix(cases_path: &str, out_path: &str) {
 			},
 			_ => false,
 		});
-		let args = json!({"fn": f, "class": class});
+		let args = json!({"fn": f, "class": class, "bg": bg});
 		match res {
 			Ok(true) => out.event("Call", &case, args, "Ok", "", json!({})),
 			Ok(false) => out.event("Call", &case, args, "Err", "", json!({})),
